@@ -123,4 +123,17 @@ def judgeRaw (payload impl : String) : Verdict :=
     | _, _ => .bad "bad-case"
   | _ => .bad "bad-case"
 
+/-- the same bytes delivered in pieces: the observation is the one the bytes alone determine -/
+def judgeSplit (payload impl : String) : Verdict :=
+  match Sx.parse payload with
+  | some (.list [.list cs, .list ss]) =>
+    match cs.mapM Sx.asBytes?, ss.mapM Sx.asBytes? with
+    | some cc, some sc =>
+      let m := observe cc.flatten sc.flatten
+      { corr := impl == m.toStr, implSpec := impl == m.toStr && !crashedObs impl, modelSpec := true, tags := [],
+        nontrivial := cc.length + sc.length > 2, cls := s!"pieces={min (cc.length + sc.length) 8}", model := m.toStr,
+        spec := "the observation of the unsplit bytes" }
+    | _, _ => .bad "bad-case"
+  | _ => .bad "bad-case"
+
 end KsVerif.Kafka.Driver
